@@ -343,21 +343,25 @@ Definition sup_nonempty (sup : suppress) : bool :=
 Definition should_ignore_rewrite (sup : suppress) (n : tnode) : bool :=
   sup_nonempty sup && (existsb (N.eqb (t_id n)) sup || t_user n).
 
-(* try_type_rewrite when children_have_policies is false (in particular whenever
-   skip_subtypes is true): no recursion *)
+Definition absent (m : rws) (k : rkey) : bool :=
+  match rw_get m k with None => true | Some _ => false end.
+
+(* try_type_rewrite(n, skip) when children_have_policies is false (in particular whenever
+   skip_subtypes is true) and no further set creation registers anything: pols empty ->
+   None, otherwise the filtered base set *)
 Definition ttr_leaf (o : opts) (n : tnode) (skip : bool) (m : rws) : rws :=
   match get_access_policies o n with
   | [] => rw_set m (t_id n, skip) RwNone
   | _ :: _ => rw_set m (t_id n, skip) RwFilter
   end.
 
-(* setgen.new_set for an object type whose rewrite needs no recursion *)
+(* new_set(n, TypeRoot(skip_subtypes=skip)) in a situation where the rewrite computation
+   cannot create a set with an unregistered key (used for the base part of a union rewrite:
+   the (n, false) placeholder is already there) *)
 Definition new_set_leaf (o : opts) (sup : suppress) (n : tnode) (skip : bool) (m : rws) : rws :=
   if should_ignore_rewrite sup n then m
-  else match rw_get m (t_id n, skip) with
-       | Some _ => m
-       | None => if o_apply_query_rewrites o then ttr_leaf o n skip m else m
-       end.
+  else if absent m (t_id n, skip) && o_apply_query_rewrites o then ttr_leaf o n skip m
+  else m.
 
 Fixpoint has_dup (l : list N) : bool :=
   match l with
@@ -375,31 +379,35 @@ Fixpoint dedup_nodes (seen : list N) (l : list tnode) : list tnode :=
 Definition count_material (l : list tnode) : N :=
   N.of_nat (length (filter t_material l)).
 
-(* policies.try_type_rewrite(stype=n, skip_subtypes=skip) for a non-compound type, with the
-   new_set calls it makes (class_set of the base and of the children), threading
-   env.type_rewrites.  [sup] is the suppress_rewrites of the calling context (inherited by
-   the detached sub-context). *)
-Fixpoint try_type_rewrite (o : opts) (sup : suppress) (n : tnode) (skip : bool) (m : rws)
-         {struct n} : rws :=
+(* [x for child in children for x in child.descendants()]: descendants() of ONE child is a
+   set (no repetition); repetitions arise only between children *)
+Definition all_descs (kids : list tnode) : list tnode :=
+  flat_map (fun k => dedup_nodes [] (descendants k)) kids.
+
+(* [full]  = policies.try_type_rewrite(stype=n, skip_subtypes=False) with every new_set call it
+             makes, threading env.type_rewrites; the key (n, false) is absent on entry.
+   [visit] = the loop over the strict descendants of n in the children_overlap case:
+             class_set(d, skip_subtypes=True) then ensure_stmt (a set of type d with a
+             statement expr, i.e. key (d, false)).
+   A rewrite computed for (d, true) with policies creates, through scoped_set, a set of type d
+   with key (d, false): that is the nested [full] call.
+   [sup] is ctx.suppress_rewrites of the calling context (inherited by sub-contexts). *)
+Fixpoint full (o : opts) (sup : suppress) (n : tnode) (m : rws) {struct n} : rws :=
   match n with
   | TNode i u a mat ps kids =>
-      let chp := negb skip &&
-                 (fix any (l : list tnode) : bool :=
+      let chp := (fix any (l : list tnode) : bool :=
                     match l with [] => false | k :: r => has_own_policies o i k || any r end) kids in
-      if negb chp then ttr_leaf o n skip m
+      if negb chp then ttr_leaf o n false m
       else
-        let descs := (fix go (l : list tnode) : list tnode :=
-                        match l with [] => [] | k :: r => descendants k ++ go r end) kids in
-        let overlap := has_dup (map t_id descs) in
-        let m1 := rw_set m (i, skip) RwNone in                  (* placeholder *)
-        (* base part: class_set(stype, skip_subtypes=True) -> new_set -> leaf rewrite *)
+        let overlap := has_dup (map t_id (all_descs kids)) in
+        let m1 := rw_set m (i, false) RwNone in                  (* placeholder *)
+        (* base part: class_set(stype, skip_subtypes=True) *)
         let m2 := if a then m1 else new_set_leaf o sup n true m1 in
         let nbase := if a then 0%N else 1%N in
-        (* children parts (skip is false here) *)
         let m3 :=
           if overlap then
-            fold_left (fun acc k => if t_material k then new_set_leaf o sup k true acc else acc)
-                      (dedup_nodes [] descs) m2
+            (fix each (l : list tnode) (acc : rws) : rws :=
+               match l with [] => acc | k :: r => each r (visit o sup k acc) end) kids m2
           else
             (fix each (l : list tnode) (acc : rws) : rws :=
                match l with
@@ -407,20 +415,57 @@ Fixpoint try_type_rewrite (o : opts) (sup : suppress) (n : tnode) (skip : bool) 
                | k :: r =>
                    each r (if t_material k then
                              (if should_ignore_rewrite sup k then acc
-                              else match rw_get acc (t_id k, false) with
-                                   | Some _ => acc
-                                   | None => if o_apply_query_rewrites o
-                                             then try_type_rewrite o sup k false acc else acc
-                                   end)
+                              else if absent acc (t_id k, false) && o_apply_query_rewrites o
+                                   then full o sup k acc else acc)
                            else acc)
                end) kids m2 in
-        let nparts := (nbase + (if overlap then count_material (dedup_nodes [] descs)
+        let nparts := (nbase + (if overlap then count_material (dedup_nodes [] (all_descs kids))
                                 else count_material kids))%N in
-        rw_set m3 (i, skip)
+        rw_set m3 (i, false)
                (if N.eqb nparts 0 then RwNone
                 else if N.eqb nparts 1 then (if a then RwUnion 1 else RwBase)
                 else RwUnion nparts)
+  end
+with visit (o : opts) (sup : suppress) (n : tnode) (m : rws) {struct n} : rws :=
+  match n with
+  | TNode _ _ _ _ _ kids =>
+      (fix each (l : list tnode) (acc : rws) : rws :=
+         match l with
+         | [] => acc
+         | d :: r =>
+             let acc1 :=
+               if t_material d && negb (should_ignore_rewrite sup d) then
+                 (* class_set(d, skip_subtypes=True) *)
+                 let b1 :=
+                   if absent acc (t_id d, true) && o_apply_query_rewrites o then
+                     match get_access_policies o d with
+                     | [] => rw_set acc (t_id d, true) RwNone
+                     | _ :: _ =>
+                         let p := rw_set acc (t_id d, true) RwNone in
+                         let q := if absent p (t_id d, false) then full o sup d p else p in
+                         rw_set q (t_id d, true) RwFilter
+                     end
+                   else acc in
+                 (* ensure_stmt(...) *)
+                 if absent b1 (t_id d, false) && o_apply_query_rewrites o
+                 then full o sup d b1 else b1
+               else acc in
+             each r (visit o sup d acc1)
+         end) kids m
   end.
+
+(* try_type_rewrite(n, skip_subtypes=True); key (n, true) absent on entry *)
+Definition skipped (o : opts) (sup : suppress) (n : tnode) (m : rws) : rws :=
+  match get_access_policies o n with
+  | [] => rw_set m (t_id n, true) RwNone
+  | _ :: _ =>
+      let p := rw_set m (t_id n, true) RwNone in
+      let q := if absent p (t_id n, false) then full o sup n p else p in
+      rw_set q (t_id n, true) RwFilter
+  end.
+
+Definition try_type_rewrite (o : opts) (sup : suppress) (n : tnode) (skip : bool) (m : rws) : rws :=
+  if skip then skipped o sup n m else full o sup n m.
 
 (* setgen.new_set(stype=n, expr=TypeRoot(skip_subtypes=skip), ignore_rewrites=ign):
    returns the new type_rewrites and the ignore_rewrites flag of the created set *)
@@ -428,8 +473,7 @@ Definition new_set (o : opts) (sup : suppress) (n : tnode) (skip : bool) (ign : 
   : rws * bool :=
   let ign' := if negb ign && sup_nonempty sup
               then should_ignore_rewrite sup n else ign in
-  if negb ign' && (match rw_get m (t_id n, skip) with None => true | Some _ => false end)
-     && o_apply_query_rewrites o
+  if negb ign' && absent m (t_id n, skip) && o_apply_query_rewrites o
   then (try_type_rewrite o sup n skip m, ign')
   else (m, ign').
 
